@@ -2,11 +2,18 @@
   C07 — numbers are parsed exactly.   (partial: the integer side of the digit machine is proved for
   EVERY integer literal of the RFC shape — any number of digits, any surrounding text: exact `Unsigned`
   within u64, exact `Signed` within i64, everything else handed to the float back end with a significand
-  that is exact or brackets the value from below and is marked truncated; the decimal→binary rounding
-  back end is an assumption validated by correspondence against the exact specification `Spec.roundF64`.)
+  that is exact or brackets the value from below and is marked truncated (`integer_u64_exact`,
+  `integer_i64_exact`, `integer_out_of_range_is_float`, `integer_classification_matches_spec`); for EVERY
+  literal with a fraction and/or exponent the request handed to the float back end is the literal's own
+  sign and value, exact or bracketing with the truncation flag (`float_literal_contract`; exponent digits
+  below the accumulation bound 10^8); the specification's reading `Spec.decOf` is the literal's value
+  (`spec_reading_is_literal_value`).  NOT proved: the decimal→binary rounding back end (Clinger fast path,
+  Eisel–Lemire, big-decimal fallback) — compared bit for bit with the exact `Spec.roundF64` on every case.)
 -/
 import SonicModel.Lemmas.NumProof
 import SonicModel.Lemmas.NumLit
+import SonicModel.Lemmas.NumContract
+import SonicModel.Lemmas.DecOfLit
 namespace Sonic.Thm.C07
 open Sonic Impl Spec
 
@@ -149,6 +156,133 @@ theorem integer_out_of_range_is_float (l : Lit) (hw : l.WF) (hf : l.frac = none)
         rw [hval, Nat.add_mul]
         constructor <;> omega
 
+/-! ### literals with a fraction and/or an exponent: what the float back end is asked to round -/
+
+/-- **the digit machine hands the float back end the literal's own value**: for every literal of the RFC
+    shape with a fraction and/or an exponent (any digit counts, leading zeros after the point, any
+    surrounding text; exponent digits below the accumulation bound, 10^8 in the code), the result is
+    either a signed zero for a literal whose digits are all zero, or a request `sig · 10^e` with the
+    literal's sign where `sig` is the literal's digit string with its last `k ≥ 0` digits cut off and
+    `e` makes up for them (`Approx`): exact when the truncation flag is off, and bracketing the exact
+    value `sig·10^e ≤ v < (sig+1)·10^e` when it is on — the whole literal consumed -/
+theorem float_literal_contract (l : Lit) (hw : l.WF) (hfe : l.frac ≠ none ∨ l.exp ≠ none)
+    (pre suf : List UInt8) (hs : isDelim suf.head?) (bound : Nat)
+    (hb : ∀ e sg ds, l.exp = some (e, sg, ds) → digitsOf ds 0 < bound) :
+    ∃ r, parseNumber (pre ++ l.render ++ suf).toArray bound (pre.length + l.signPart.length) l.neg =
+        (r, pre.length + l.render.length) ∧
+      ((r = .zero l.neg ∧ l.mant = 0) ∨
+       ∃ sig e tr, r = .toFloat l.neg sig e tr ∧ Approx sig e tr l.mant l.exp10) := by
+  obtain ⟨hne, hI, hzero, hfrac, hexp⟩ := id hw
+  have hdf := delim_facts suf.head? hs
+  have hR : EndsNum suf := ⟨hdf.1, hdf.2.2.1, hdf.2.2.2⟩
+  have hr : pre ++ l.render ++ suf = (pre ++ l.signPart) ++ (l.int ++ (l.fracPart ++ (l.expPart ++ suf))) := by
+    simp [Lit.render]
+  have hl : pre.length + l.render.length =
+      (pre ++ l.signPart).length + l.int.length + l.fracPart.length + l.expPart.length := by
+    simp [Lit.render]; omega
+  have hl0 : pre.length + l.signPart.length = (pre ++ l.signPart).length := by simp
+  rw [hr, hl, hl0]
+  cases hint : l.int with
+  | nil => exact absurd hint hne
+  | cons c I' =>
+    by_cases h48 : c = 48
+    · -- `0.…` / `0e…`
+      have h1 : l.int.length = 1 := hzero (by simp [hint, h48])
+      have hnil : I' = [] := by rw [hint] at h1; simpa using h1
+      subst h48; subst hnil
+      have hint0 : digitsOf l.int 0 = 0 := by rw [hint]; simp [digitsOf]
+      cases hf : l.frac with
+      | none =>
+        cases he : l.exp with
+        | none => rcases hfe with h | h <;> contradiction
+        | some t =>
+          obtain ⟨e, sg, ds⟩ := t
+          have hF : l.fracPart = [] := by simp [Lit.fracPart, hf]
+          have := float_zero_exp l hw e sg ds he (pre ++ l.signPart) suf hR bound (hb e sg ds he) l.neg
+          refine ⟨.zero l.neg, ?_, Or.inl ⟨rfl, ?_⟩⟩
+          · rw [hF]; simpa using this
+          · simp only [Lit.mant, hf, Option.getD_none, hint0]; rfl
+      | some f =>
+        obtain ⟨zs, g, hfz, hzs, hg⟩ := zeros_split f
+        subst hfz
+        have := float_zero_frac l hw hint zs g hf hzs hg (pre ++ l.signPart) suf hR bound hb l.neg
+        refine ⟨_, by simpa using this, ?_⟩
+        have hfd := (hfrac _ hf).2
+        cases g with
+        | nil =>
+          left
+          refine ⟨rfl, ?_⟩
+          simp only [Lit.mant, hf, Option.getD_some, List.append_nil, hint0]
+          exact zeros_value zs hzs
+        | cons d g' =>
+          right
+          obtain ⟨sig, e, tr, hres, happ⟩ := contract_z l.neg zs d g' l.expVal hzs (fun x hx => hfd x (by simp [hx]))
+          refine ⟨sig, e, tr, hres, ?_⟩
+          simpa [Lit.mant, Lit.exp10, hf, hint] using happ
+    · have := float_nonzero l hw c I' hint h48 hfe (pre ++ l.signPart) suf hR bound hb l.neg
+      refine ⟨_, by simpa [Nat.add_assoc] using this, Or.inr ?_⟩
+      have hfd : allDigits (l.frac.getD []) := by
+        cases hf : l.frac with
+        | none => intro x hx; simp at hx
+        | some f => exact (hfrac f hf).2
+      obtain ⟨sig, e, tr, hres, happ⟩ := contract_nz l.neg (c :: I') (l.frac.getD []) l.expVal hfd (by rw [← hint]; exact hI)
+      refine ⟨sig, e, tr, hres, ?_⟩
+      simpa [Lit.mant, Lit.exp10, hint] using happ
+
+/-- the bracket in the form the back end uses it -/
+theorem approx_brackets (sig : Nat) (e : Int) (tr : Bool) (mant : Nat) (e10 : Int) (h : Approx sig e tr mant e10) :
+    ∃ k : Nat, e = e10 + k ∧ Brackets sig k mant := by
+  obtain ⟨k, he, h1, h2, _⟩ := h
+  exact ⟨k, he, h1, h2⟩
+
+/-! ### the specification the oracle uses reads the same value -/
+
+/-- `Spec.decOf` (the exact reading that `Spec.classify` / `Spec.roundF64` and the correspondence oracle
+    start from) of a literal standing in a text is the literal's own sign, digits and decimal exponent -/
+theorem spec_reading_is_literal_value (l : Lit) (hw : l.WF) (pre suf : List UInt8) (hs : isDelim suf.head?) :
+    decOf (pre ++ l.render ++ suf).toArray pre.length (pre.length + l.render.length) =
+      { neg := l.neg, mant := l.mant, exp := l.exp10, isInt := l.isInt } :=
+  decOf_lit l hw pre suf hs
+
+/-- **the integer classification of the digit machine is the specification's**: whenever `Spec.classify`
+    says `u64 v` / `i64 v` for an integer literal, the digit machine returns exactly `Unsigned v` /
+    `Signed v`; whenever it says "a float", the digit machine never returns an integer -/
+theorem integer_classification_matches_spec (l : Lit) (hw : l.WF) (hf : l.frac = none) (he : l.exp = none)
+    (pre suf : List UInt8) (hs : isDelim suf.head?) (bound : Nat) :
+    match classify (decOf (pre ++ l.render ++ suf).toArray pre.length (pre.length + l.render.length)) with
+    | .u64 v => parseNumber (pre ++ l.render ++ suf).toArray bound (pre.length + l.signPart.length) l.neg =
+        (.unsigned v, pre.length + l.render.length)
+    | .i64 v => parseNumber (pre ++ l.render ++ suf).toArray bound (pre.length + l.signPart.length) l.neg =
+        (.signed v, pre.length + l.render.length)
+    | _ => ∀ v, (parseNumber (pre ++ l.render ++ suf).toArray bound (pre.length + l.signPart.length) l.neg).1 ≠ .unsigned v ∧
+        (parseNumber (pre ++ l.render ++ suf).toArray bound (pre.length + l.signPart.length) l.neg).1 ≠ .signed v := by
+  rw [decOf_lit l hw pre suf hs]
+  have hint : l.isInt = true := by simp [Lit.isInt, hf, he]
+  unfold classify
+  simp only [hint, Bool.true_and]
+  by_cases hu : l.neg = false ∧ l.mant < 2 ^ 64
+  · have := integer_u64_exact l hw hf he hu.1 hu.2 pre suf hs bound
+    have hc : (!l.neg && decide (l.mant < 2 ^ 64)) = true := by simp [hu.1, hu.2]
+    simp only [hc, if_true]; exact this
+  · by_cases hi : l.neg = true ∧ 0 < l.mant ∧ l.mant ≤ 2 ^ 63
+    · have := integer_i64_exact l hw hf he hi.1 hi.2.1 hi.2.2 pre suf hs bound
+      have hc1 : ¬ ((!l.neg && decide (l.mant < 2 ^ 64)) = true) := by simp [hi.1]
+      have hc2 : (l.neg && decide (0 < l.mant) && decide (l.mant ≤ 2 ^ 63)) = true := by simp [hi.1, hi.2.1, hi.2.2]
+      simp only [hc1, hc2, if_false, if_true]; exact this
+    · obtain ⟨r, hr, hcase⟩ := integer_out_of_range_is_float l hw hf he ⟨hu, hi⟩ pre suf hs bound
+      have h1 : ¬ ((!l.neg && decide (l.mant < 2 ^ 64)) = true) := by
+        intro h; apply hu
+        simp only [Bool.and_eq_true, Bool.not_eq_true', decide_eq_true_eq] at h; exact h
+      have h2 : ¬ ((l.neg && decide (0 < l.mant) && decide (l.mant ≤ 2 ^ 63)) = true) := by
+        intro h; apply hi
+        simp only [Bool.and_eq_true, decide_eq_true_eq] at h; exact ⟨h.1.1, h.1.2, h.2⟩
+      simp only [h1, h2, if_false]
+      have hfin : ∀ v, r ≠ .unsigned v ∧ r ≠ .signed v := by
+        intro v
+        rcases hcase with ⟨h, _⟩ | ⟨h, _⟩ | ⟨sig, k, h, _⟩ <;> (subst h; constructor <;> intro hh <;> cases hh)
+      cases hfb : f64Bits { neg := l.neg, mant := l.mant, exp := l.exp10, isInt := true } <;>
+        (simp only; intro v; rw [hr]; exact hfin v)
+
 /-! non-vacuity of the three statements: 2^64-1 (twenty digits), -2^63, 2^64 and -0 -/
 def litOf (neg : Bool) (ds : List UInt8) : Lit := { neg := neg, int := ds, frac := none, exp := none }
 theorem litOf_wf (neg : Bool) (ds : List UInt8) (h1 : ds ≠ []) (h2 : allDigits ds) (h3 : ds.head? = some 48 → ds.length = 1) :
@@ -162,6 +296,24 @@ example : parseNumber ([91] ++ u64max.render ++ [93]).toArray 1000 1 false = (.u
 example : parseNumber ([91] ++ i64min.render ++ [93]).toArray 1000 2 true = (.signed (-9223372036854775808), 21) :=
   integer_i64_exact i64min (litOf_wf _ _ (by decide) (by decide) (by decide)) rfl rfl rfl (by decide) (by decide) [91] [93] (by simp [isDelim]) 1000
 example : ¬ (u64over.neg = false ∧ u64over.mant < 2 ^ 64) ∧ ¬ (u64over.neg = true ∧ 0 < u64over.mant ∧ u64over.mant ≤ 2 ^ 63) := by decide
+
+/-- `-0.0012345678901234567890e+5`: two zeros skipped, 1 + 16 digits kept, 3 cut off (truncated) -/
+def sampleFrac : List UInt8 := [48,48,49,50,51,52,53,54,55,56,57,48,49,50,51,52,53,54,55,56,57,48]
+def sampleF : Lit := { neg := true, int := [48], frac := some sampleFrac, exp := some (101, some 43, [53]) }
+theorem sampleF_wf : sampleF.WF := by
+  refine ⟨by decide, by decide, by decide, ?_, ?_⟩
+  · intro f hf; cases hf; exact ⟨by decide, by decide⟩
+  · intro e s ds h; cases h; exact ⟨by decide, by decide, by decide, by decide⟩
+example : ∃ r, parseNumber ([91] ++ sampleF.render ++ [93]).toArray 100000000 (1 + sampleF.signPart.length) sampleF.neg =
+      (r, 1 + sampleF.render.length) ∧
+    ((r = .zero sampleF.neg ∧ sampleF.mant = 0) ∨
+     ∃ sig e tr, r = .toFloat sampleF.neg sig e tr ∧ Approx sig e tr sampleF.mant sampleF.exp10) :=
+  float_literal_contract sampleF sampleF_wf (Or.inl (by simp [sampleF])) [91] [93] (by simp [isDelim]) 100000000
+    (by intro e sg ds h; cases h; decide)
+example : (parseNumber ([91] ++ sampleF.render ++ [93]).toArray 100000000 2 true).1 =
+    .toFloat true 12345678901234567 (-19 + 5) true := by
+  simp [parseNumber, parseNumber.skipZeros, parseFraction, parseExponent, takeDigits, expDigits, skipDigits, isDigitAt, isDigit,
+    dig, sampleF, sampleFrac, Lit.render, Lit.signPart, Lit.fracPart, Lit.expPart]
 
 /-! concrete instances of the remaining branches of the digit machine, evaluated in the kernel
     (these are tests of the model, labelled as such): `0`, `-0`, `-0.0`, 2^64-1, 2^64, -2^63,
